@@ -14,7 +14,10 @@ from vf import S, Lst, sx_opt, unS
 
 LANGS = ['typescript', 'kotlin', 'swift', 'scala', 'go', 'python']
 PREFIXES = ['', 'OP', 'X_']
-ACRONYMS = [[], [], ['id', 'api'], ['id', 'url', 'http'], ['xy', 'yZw', 'wQr']]
+# Go acronym lists: lower case, UPPER case and Mixed case spellings (go.rs:582 searches the PascalCase form: id, Id and ID all
+# give Id), a non-idempotent triple, and `id` again so that the generic parameter TId of c09_gen is rewritten at its uses
+ACRONYMS = [[], [], ['id', 'api'], ['ID', 'url', 'HTTP'], ['xy', 'yZw', 'wQr'], ['Id', 'Api', 'http'], ['id'],
+            ['no', 'it', 'co', 'id']]      # occurrences followed by a lower-case letter (Node, Item, Config, Color) must stay: go.rs:588
 EXT = {'typescript': 'ts', 'kotlin': 'kt', 'swift': 'swift', 'scala': 'scala', 'go': 'go', 'python': 'py'}
 
 
@@ -27,7 +30,7 @@ def cfg_for(lang, k):
     if lang == 'scala':
         return {'package': 'com.example'}
     if lang == 'go':
-        return {'package': 'example', 'uppercase_acronyms': ACRONYMS[k % 5]}
+        return {'package': 'example', 'uppercase_acronyms': ACRONYMS[k % len(ACRONYMS)]}
     return {}
 
 
@@ -153,6 +156,12 @@ pub struct H { pub u: U }
 pub struct UserId { pub a: u32 }
 #[typeshare]
 pub type Ids = Vec<UserId>;
+'''),
+    'C09-go-acronym-generic': ('go', {'package': 'p', 'uppercase_acronyms': ['ID']}, '''
+#[typeshare]
+pub struct UserId { pub a: u32 }
+#[typeshare]
+pub struct Foo<TId> { pub x: TId, pub v: Vec<UserId> }
 '''),
     'C09-go-acronym-inner': ('go', {'package': 'p', 'uppercase_acronyms': ['xy', 'yZw', 'wQr']}, '''
 #[typeshare]
@@ -297,13 +306,15 @@ def run(chk):
                 'as generic arguments (nested to depth 2), forward, backward and recursive; a third of the programs without serde(rename), a third with '
                 'every subset member renamed at random, small programs with ALL subsets enumerated; prefixes "", "OP", "X_" (Kotlin, Swift); in 3/7 of '
                 'the programs most item names of every kind begin with a prefix setting or a proper prefix of one (OPEvent, OEvent, X_Node, XNode), half of '
-                'those generated under that very prefix; Go acronym lists [], [id, api], [id, url, http]; 6 languages. non-trivial = distinct (program, language, configuration) inside dom_C09 with '
+                'those generated under that very prefix; Go acronym lists [], [id, api], [ID, url, HTTP], [xy, yZw, wQr], [Id, Api, http], [id], [no, it, co, id] (lower, upper and mixed case spellings; occurrences followed by a lower-case letter; '
+                'a quarter of the generic structs have the parameter TId, which `id` rewrites at its uses); 6 languages. non-trivial = distinct (program, language, configuration) inside dom_C09 with '
                 'known_C09 = None and at least one reference to a generated type')
     chk.assumptions = ['syn is not modelled: the model receives the AST produced by harness/libdrive/src/ast.rs from the same text',
                        'what a name in a type position of the target language MEANS is fixed by Spec/C09Spec.v (c09_observe, builtin tables) and '
                        'lib/extract.py; no target-language compiler is installed',
                        'single-file mode (p_imports = []); cross-crate references are C14\'s subject',
-                       'C09_Go_partial covers uppercase_acronyms = []; with acronyms the property is checked by the correspondence only']
+                       'C09_Go covers every alphanumeric uppercase_acronyms list on ASCII programs (all generated programs and lists are); '
+                       'non-alphanumeric acronyms and non-ASCII names are outside the theorem and are not generated']
     chk.prepare(need_cli=True)
     if not chk.harness_ok:
         return
